@@ -12,7 +12,7 @@ use serde_json::json;
 pub fn prop() -> Prop {
   Prop {
     id: "C13",
-    rule: "case = (cold source: of / of_option / of_result / of_fn / start / from_iter / repeat / empty / never / throw / create script / defer(source) / from_future(poll-counting ready future); chain of 1..5 cloneable C03 operators whose closures count their calls; built once as CloneableBoxOp (or CloneableBoxOpThreads); 2..3 clones subscribed successively, optionally a further clone subscribed from inside the first subscription's first callback; one case in eight at scale: 20..79 successive subscriptions and / or a cold input of 100..600 items). \
+    rule: "case = (cold source: of / of_option / of_result / of_fn / start / from_iter / repeat / empty / never / throw / create script / defer(source) / from_future / from_future_result (poll-counting ready future, value or error); chain of 1..5 cloneable C03 operators whose closures count their calls; built once as CloneableBoxOp (or CloneableBoxOpThreads); 2..3 clones subscribed successively, optionally a further clone subscribed from inside the first subscription's first callback; one case in eight at scale: 20..79 successive subscriptions and / or a cold input of 100..600 items). \
            Oracle: after building, every counter (source closures, defer factories, future polls, map/filter/scan/tap closures) is 0; after k subscriptions the source closure / factory ran exactly k times and the future was polled k times; every subscription's notification sequence equals the reference interpreter's. Non-trivial: the chain contains an operator that keeps state (take, skip, last, scan, distinct, buffer, pairwise, default_if_empty, ...) and the source emits >= 1 item. Distinct by hash(case). \
            Part `overlap`: pipelines of depth <= 4 over every operator that has a cloneable form (the C03 catalogue, finalize, box_it, observe_on, delay, delay_subscription, subscribe_on, debounce, throttle, buffer_with_time, buffer_with_count_and_time, the eight two-input combinators) on cold sources and virtual-clock intervals, built once; 2..3 clones are subscribed at generated, overlapping virtual times and each is unsubscribed 12 ticks after its own start. Oracle (metamorphic, no model): every subscription's trace, with times relative to its own start, equals the trace of a single subscription of the same pipeline run alone in a fresh world; finalize callbacks ran once per subscription and finalize node. Non-trivial (overlap): two subscriptions are alive at the same time and the pipeline uses the scheduler or a stateful operator.",
     assumptions: &["the nested subscription is made on a *clone* of the pipeline (the form of re-entrancy the property names)"],
@@ -32,13 +32,15 @@ struct Case {
 }
 
 fn gen_src(c: &mut dyn Choices) -> Src {
-  match c.pick(8) {
+  match c.pick(9) {
     0 => Src::Defer(Box::new(Node::Src(gen_cold_src(c, 4, 4)))),
     1 => Src::FutureReady(gen_v(c, 4)),
     2 => Src::OfFn(gen_v(c, 4)),
     3 => Src::Start(gen_v(c, 4)),
     4 => Src::Create(gen_create_script(c, 5, 4, true)),
-    _ => gen_cold_src(c, 5, 4),
+    5 | 6 | 7 => gen_cold_src(c, 5, 4),
+    // (new alternative at the high end of the pick: recorded tapes keep their meaning)
+    _ => Src::FutureResultReady(if c.pick(3) == 0 { Err(gen_e(c)) } else { Ok(gen_v(c, 4)) }),
   }
 }
 
@@ -56,7 +58,7 @@ fn counted_sources(n: &Node) -> (usize, usize) {
     if let Node::Src(s) = n {
       match s {
         Src::OfFn(_) | Src::Start(_) | Src::Create(_) | Src::Defer(_) => calls += 1,
-        Src::FutureReady(_) => polls += 1,
+        Src::FutureReady(_) | Src::FutureResultReady(_) => polls += 1,
         _ => {}
       }
     }
